@@ -356,6 +356,11 @@ def conds(tier):
         out.append(Cond("prog3", mk(T3), params(len(T3), menu=AMENU, g0=0, g1=2, entry=0, res=True, sc=False), pin=3,
                         builds=("C",), budget=300, family="batch-free programs: 3-slot nested structures, result() "
                         "style return", encodes=ENC))
+        TE = [0, 1]
+        out.append(Cond("prog1", mk(TE), params(len(TE), menu=AMENU, g0=0, g1=2, entry=3, res=False, sc=False), pin=2,
+                        builds=("C",), budget=200, family="batch-free programs: a bare awaitable / a one-element list "
+                        "x 11 slot kinds x guard x 4 entries", encodes=ENC,
+                        extra_pre=["_hm.core.unused_ok(%r, t, [s0, s1, s2])" % (TE,)]))
     else:
         T = [4, 6, 2]
         out.append(Cond("prog2", mk(T), params(len(T)), pin=4, builds=("C",), budget=3000,
